@@ -85,6 +85,10 @@ def interleave_readonly(case, state):
         SigmaZ().statistics_from_samples(state, space[case["idx"]])
     if which in (0, 3):
         UN.rotate_psi(state, "X" * n, space, unitaries=UN.create_dict())
+    if case.get("am2"):
+        # a second object of the same class and sizes but other parameters is evaluated in between (shared / class-level state)
+        other = gen.build_state(dict(case, am=case["am2"]))
+        other.normalization(space); other.psi(space); other.probability(space); other.sample(1, num_samples=2)
 
 
 def check_round(case, state):
